@@ -132,6 +132,33 @@ REGISTRY = {
         assumptions=COMMON_ASSUMPTIONS + ["the float-relative degeneracy threshold (1e-5 / atol) is a rounding statement and outside the claim", "scale factor s > 0, rotation denominators 1+t^2, 1+u^2 are atoms"],
         timeout_s={"quick": 300, "thorough": 1200},
     ),
+    "C10": dict(
+        jobs=lambda tier, seed: __import__("vf.props.history", fromlist=["x"]).configs_c10(tier, seed),
+        job_of_config=lambda cfg: ("vf.props.history", "c10_product" if cfg.get("product") else "c10"),
+        technique="request schedules (element and slice requests over H_tilde, U, U_inv, optionally interleaved between two computations built from the same input objects) are the enumerated paths; "
+        "values stay symbolic and after every request z3 decides value != fresh-computation value (syntactically identical z3 terms discharged structurally, verdicts cached); "
+        "identity snapshots of all input arrays and of every value already handed out are re-checked after each schedule",
+        bounds={
+            "quick": "1|1 (terms at orders 1,2), 1|2, 1|1|1 to order 2-3, both modes: exhaustive k=2 over the full alphabet (elements of orders 1..2 and slice requests), 1200 sampled k=3 schedules, "
+            "sampled histories of length 4-6 incl. two interleaved computations; carrier A with full-diag / symmetric / asymmetric masks: exhaustive k=2 and sampled k=5",
+            "thorough": "k=3 exhaustive over the scalar alphabet of 1|1 (13824 schedules per mode), 10x more sampled long histories",
+        },
+        assumptions=COMMON_ASSUMPTIONS + ["implicit (LinearOperator) mode histories are covered by C06's harness only for ascending schedules"],
+        timeout_s={"quick": 400, "thorough": 1800},
+    ),
+    "C11": dict(
+        jobs=lambda tier, seed: __import__("vf.props.history", fromlist=["x"]).configs_c11(tier, seed),
+        job_of_config=_job_of("vf.props.history", "c11"),
+        level="fault_enumeration",
+        technique="exhaustive fault injection: every invocation index of the three user callbacks (Hamiltonian eval, solve_sylvester, element matmul) of a clean symbolic run x {Exception, RuntimeError, KeyboardInterrupt}; "
+        "asserted: exception reaches the caller with its type, no PENDING marker reachable from any cache, and every element requested afterwards is decided equal (z3 / syntactic identity) to the clean run; double faults",
+        bounds={
+            "quick": "1|1 to order 3, 1|2 and 1|1|1 to order 2 (terms at orders 1,2), both modes, 3 trigger requests x 2 follow-up schedules, plus double faults",
+            "thorough": "all layouts to order 3, 6 trigger requests",
+        },
+        assumptions=COMMON_ASSUMPTIONS + ["RuntimeError raised by a callback may be re-raised as RuntimeError with a different message (documented wrapping)"],
+        timeout_s={"quick": 400, "thorough": 1800},
+    ),
 }
 
 # Properties not (yet) claimed, each with the reason.  Entries disappear as checks are registered.
